@@ -274,9 +274,6 @@ func verifAnalyzerScope(inputs []verifInput) map[string]analyzer.Variable {
 	m := map[string]analyzer.Variable{
 		"print":   analyzer.NewBuiltinVar(verifPrintType()),
 		"println": analyzer.NewBuiltinVar(verifPrintType()),
-		"pause": analyzer.NewBuiltinVar(ast.NewFunctionType(
-			ast.NewNormalFunctionTypeParamKind([]ast.FunctionTypeParam{}),
-			herrors.Span{}, ast.NewNullType(herrors.Span{}), herrors.Span{})),
 	}
 	for _, in := range inputs {
 		switch in.kind {
@@ -294,7 +291,7 @@ func verifAnalyzerScope(inputs []verifInput) map[string]analyzer.Variable {
 }
 
 func verifVmScope(inputs []verifInput) map[string]vvalue.Value {
-	m := map[string]vvalue.Value{"print": verifVmPrint(false), "println": verifVmPrint(true), "pause": verifVmPause()}
+	m := map[string]vvalue.Value{"print": verifVmPrint(false), "println": verifVmPrint(true)}
 	for _, in := range inputs {
 		switch in.kind {
 		case 'i':
@@ -311,7 +308,7 @@ func verifVmScope(inputs []verifInput) map[string]vvalue.Value {
 }
 
 func verifTreeScope(inputs []verifInput) map[string]ivalue.Value {
-	m := map[string]ivalue.Value{"print": verifTreePrint(false), "println": verifTreePrint(true), "pause": verifTreePause()}
+	m := map[string]ivalue.Value{"print": verifTreePrint(false), "println": verifTreePrint(true)}
 	for _, in := range inputs {
 		switch in.kind {
 		case 'i':
@@ -330,6 +327,7 @@ func verifTreeScope(inputs []verifInput) map[string]ivalue.Value {
 // ---- drivers ----
 
 type verifAnalysis struct {
+	usesPause bool // the program calls the host function pause(): only then is it part of the scopes
 	modules  map[string]ast.AnalyzedProgram
 	diags    []diagnostic.Diagnostic
 	syntax   []herrors.Error
@@ -339,8 +337,15 @@ type verifAnalysis struct {
 const verifFile = "main"
 
 func verifAnalyze(code string, modules map[string]string, inputs []verifInput, needMain bool) verifAnalysis {
-	mods, diags, syn := Analyze(InputProgram{ProgramText: code, Filename: verifFile}, verifAnalyzerScope(inputs), verifHost{modules: modules}, needMain)
-	r := verifAnalysis{modules: mods, diags: diags, syntax: syn}
+	scope := verifAnalyzerScope(inputs)
+	usesPause := verifContains(code, "pause(")
+	if usesPause {
+		scope["pause"] = analyzer.NewBuiltinVar(ast.NewFunctionType(
+			ast.NewNormalFunctionTypeParamKind([]ast.FunctionTypeParam{}),
+			herrors.Span{}, ast.NewNullType(herrors.Span{}), herrors.Span{}))
+	}
+	mods, diags, syn := Analyze(InputProgram{ProgramText: code, Filename: verifFile}, scope, verifHost{modules: modules}, needMain)
+	r := verifAnalysis{modules: mods, diags: diags, syntax: syn, usesPause: usesPause}
 	if len(syn) > 0 {
 		r.hasError = true
 	}
@@ -389,7 +394,11 @@ func verifRunVM(a verifAnalysis, modules map[string]string, inputs []verifInput,
 	}
 	var cctx context.Context = ctx
 	var cancel context.CancelFunc = ctx.cancel
-	vm := runtime.NewVM(compiled, vvalue.Executor(exec), &cctx, &cancel, verifVmScope(inputs), limits)
+	vmScope := verifVmScope(inputs)
+	if a.usesPause {
+		vmScope["pause"] = verifVmPause()
+	}
+	vm := runtime.NewVM(compiled, vvalue.Executor(exec), &cctx, &cancel, vmScope, limits)
 	res := vm.SpawnSync(runtime.MainFn(), nil, nil)
 	o := verifOutcome{out: out, class: "ok", triggers: triggers, polls: ctx.polls}
 	if res.Exception != nil {
@@ -417,7 +426,11 @@ func verifRunTree(a verifAnalysis, modules map[string]string, inputs []verifInpu
 	out := ""
 	exec := verifTreeExec{out: &out, modules: modules}
 	var cctx context.Context = ctx
-	in := interpreter.NewInterpreter(callLimit, ivalue.Executor(exec), a.modules, verifTreeScope(inputs), &cctx)
+	treeScope := verifTreeScope(inputs)
+	if a.usesPause {
+		treeScope["pause"] = verifTreePause()
+	}
+	in := interpreter.NewInterpreter(callLimit, ivalue.Executor(exec), a.modules, treeScope, &cctx)
 	i := in.Execute(verifFile)
 	o := verifOutcome{out: out, class: "ok", polls: ctx.polls}
 	if i != nil {
